@@ -3,9 +3,14 @@
 
 mod archive;
 mod codec;
+mod compress;
 mod files;
 mod hilbert;
+mod malformed;
+mod scen;
 mod store;
+mod streams;
+mod twin;
 mod util;
 
 use util::Out;
@@ -42,6 +47,32 @@ fn main() {
                 "reject" => files::drive_reject(seed, &mut out),
                 "writedirs" => files::drive_writedirs(seed, &tier, &mut out),
                 "steer" => files::drive_steer(seed, &tier, &mut out),
+                "malformed" => {
+                    let wd = std::path::Path::new(outp).parent().expect("dir").to_str().expect("utf8").to_string();
+                    malformed::drive(seed, &tier, arg(&args, "--stim"), &wd, &mut out)
+                }
+                "compress" => {
+                    let wd = std::path::Path::new(outp).parent().expect("dir").to_str().expect("utf8").to_string();
+                    compress::drive(seed, &tier, &wd, &mut out)
+                }
+                "twin" => twin::drive(seed, &tier, arg(&args, "--stim"), &mut out),
+                "faults" => scen::drive_faults(seed, &tier, &mut out),
+                "crash" => scen::drive_crash(seed, &tier, &mut out),
+                "sched" => scen::drive_sched(seed, &tier, arg(&args, "--stim"), &mut out),
+                "startpos" => scen::drive_startpos(seed, &tier, &mut out),
+                "reads" => {
+                    let mut rng = util::Rng::new(seed ^ 0x52454144);
+                    let mut files: Vec<Vec<u8>> = files::collect_files(&mut rng, seed, &tier, arg(&args, "--stim"), "c20")
+                        .into_iter()
+                        .filter(|f| f.2)
+                        .map(|f| f.0)
+                        .collect();
+                    for c in 1u8..=4 {
+                        files.push(scen::archive_bytes(7, c));
+                    }
+                    files.push(scen::archive_bytes(0, 2));
+                    scen::drive_reads(seed, &tier, files, &mut out)
+                }
                 "history" => store::drive_history(seed, &tier, &mut out),
                 "bulk" => store::drive_bulk(seed, &tier, &mut out),
                 "canon" => {
@@ -58,6 +89,7 @@ fn main() {
             println!("events={n}");
         }
         "save-child" => store::save_child(&args[2], &args[3]),
+        "worker" => malformed::worker(&args[2], &args[3], args[4].parse().expect("start"), args[5].parse().expect("skip")),
         other => {
             eprintln!("unknown subcommand {other}");
             std::process::exit(2);
